@@ -138,7 +138,7 @@ func (its *WiredDatatype) checkOptionAndError(ppp *model.PushPullPack) errors.Or
 		} else {
 			panic("Not implemented yet")
 		}
-	} else if ppp.GetPushPullPackOption().HasSubscribeBit() {
+	} else if ppp.GetPushPullPackOption().HasSubscribeBit() && its.state != model.StateOfDatatype_SUBSCRIBED {
 		modelOp := ppp.GetOperations()[0]
 		_, ok := operations.ModelToOperation(modelOp).(*operations.SnapshotOperation)
 		if !ok {
@@ -155,15 +155,31 @@ func (its *WiredDatatype) checkOptionAndError(ppp *model.PushPullPack) errors.Or
 }
 
 func (its *WiredDatatype) excludeDuplicatedOperations(ppp *model.PushPullPack) {
-	pulled := its.calculatePullingOperations(ppp.CheckPoint)
-	if len(ppp.Operations) > pulled {
-		// for example, if len(ppp.Operations) == 5: o_1 o_2 o_3 o_4 o_5 are received, and
+	// operations of this client never need to be applied again: after a lost response the retried
+	// request pulls them back from the server
+	var foreign []*model.Operation
+	for _, op := range ppp.Operations {
+		if op.ID.GetCUID() != its.opID.CUID {
+			foreign = append(foreign, op)
+		}
+	}
+	// a stale or repeated response must not move anything backwards
+	pulled := 0
+	if ppp.CheckPoint.Sseq > its.checkPoint.Sseq && ppp.CheckPoint.Cseq >= its.checkPoint.Cseq {
+		pulled = its.calculatePullingOperations(ppp.CheckPoint)
+	}
+	if pulled < 0 {
+		pulled = 0
+	}
+	if len(foreign) > pulled {
+		// for example, if 5 operations o_1 o_2 o_3 o_4 o_5 of other clients are received, and
 		// if `pulled` == 3, o_1 and o_2 were already received,
 		// o_1 and o_2 should be skipped
-		skip := len(ppp.Operations) - pulled
-		ppp.Operations = ppp.Operations[skip:]
+		skip := len(foreign) - pulled
+		foreign = foreign[skip:]
 		its.L().Infof("skip %d operations", skip)
 	}
+	ppp.Operations = foreign
 }
 
 func (its *WiredDatatype) syncCheckPoint(newCheckPoint *model.CheckPoint) {
